@@ -476,6 +476,25 @@ Proof.
       * rewrite last_write_zip_notin; [reflexivity|]. rewrite points_in_fits by assumption. congruence.
 Qed.
 
+(* for a draw_iter-only target the stores ARE the semantics: no range hypothesis *)
+Lemma paint_writes_default bb c m p :
+  paint bb DefaultOnly c m p =
+  match last_write p (writes bb DefaultOnly c) with Some col => Some col | None => m p end.
+Proof.
+  destruct c; cbn [paint writes]; unfold default_clear, default_fill_solid, default_fill_contiguous; apply draw_iter_spec.
+Qed.
+
+Theorem render_writes_default bb cs p :
+  render bb DefaultOnly cs p = last_write p (writes_all bb DefaultOnly cs).
+Proof.
+  unfold render, paint_all, writes_all.
+  assert (forall m, fold_left (fun m c => paint bb DefaultOnly c m) cs m p =
+                    match last_write p (flat_map (writes bb DefaultOnly) cs) with Some col => Some col | None => m p end) as H.
+  { induction cs as [|c cs IH]; intros m; cbn [fold_left flat_map last_write]; [reflexivity|].
+    rewrite IH, last_write_app. destruct (last_write p (flat_map _ cs)); [reflexivity|]. apply paint_writes_default. }
+  rewrite H. destruct (last_write p _); reflexivity.
+Qed.
+
 Theorem paint_all_writes bb k cs :
   rect_fits bb -> Forall call_fits cs ->
   forall m p, paint_all bb k cs m p =
@@ -1057,3 +1076,47 @@ Theorem run_stack_render bb k st ops p :
   rect_fits bb -> Forall call_fits (flat_map (lower st bb) ops) ->
   last_write p (run_stack bb k st ops) = render bb k (flat_map (lower st bb) ops) p.
 Proof. intros Hb H. rewrite run_stack_writes_all. symmetry. apply render_writes; assumption. Qed.
+
+(* ---- call level: what a clipped target hands to its parent lies inside clip /\ parent box ---------------- *)
+(* (for a parent that does not bounds-check, which is what `clipped` is for) *)
+Definition call_within (r : rect) (c : call) : Prop :=
+  match c with
+  | DrawIter ps => Forall (fun pc => contains r (fst pc) = true) ps
+  | FillContiguous a _ | FillSolid a _ => forall p, contains a p = true -> contains r p = true
+  | Clear _ => False        (* a Clear would be the parent's whole box *)
+  end.
+
+Theorem clip_call_within ca c : call_within ca (clip_call ca c).
+Proof.
+  destruct c as [ps|area cs|area col|col]; cbn [clip_call call_within clip_fill_solid].
+  - apply Forall_forall. intros pc Hin. apply filter_In in Hin. tauto.
+  - destruct (rect_eqb (intersection ca area) area) eqn:E; cbn [call_within]; intros p Hp.
+    + apply rect_eqb_eq in E. rewrite <- E in Hp. eapply intersection_sub_l; eassumption.
+    + eapply intersection_sub_l; eassumption.
+  - intros p Hp. eapply intersection_sub_r; eassumption.
+  - intros p Hp. eapply intersection_sub_r; eassumption.
+Qed.
+
+Theorem clip_lower_within a bb c : call_within (intersection a bb) (lower1c (Clip a) bb c).
+Proof. cbn [lower1c]. apply clip_call_within. Qed.
+
+(* the same on an unbounded canvas: a parent that stores every pixel it is handed, whatever its box *)
+Theorem clip_call_confined own F a bb c m q :
+  call_sizes c -> size_nonneg (intersection a bb) ->
+  free_paint own F (lower1c (Clip a) bb c) m q =
+  if contains (intersection a bb) q then free_paint (intersection a bb) F c m q else m q.
+Proof. intros. cbn [lower1c]. apply free_clip; assumption. Qed.
+
+(* a call that lies within r changes nothing outside r, even on an unbounded canvas *)
+Lemma call_within_untouched own F r c m q :
+  call_within r c -> contains r q = false -> free_paint own F c m q = m q.
+Proof.
+  destruct c as [ps|area cs|area col|col]; cbn [call_within free_paint]; intros H Hq.
+  - assert (last_write q ps = None) as ->; [|reflexivity].
+    induction ps as [|[p col] ps IH]; cbn [last_write]; [reflexivity|].
+    inversion H as [|? ? Hp Hps]; subst. rewrite (IH Hps). cbn [fst] in Hp.
+    rewrite point_eqb_neq; [reflexivity|]. intros ->. congruence.
+  - destruct (contains area q) eqn:E; [|reflexivity]. rewrite (H q E) in Hq. discriminate.
+  - destruct (contains area q) eqn:E; [|reflexivity]. rewrite (H q E) in Hq. discriminate.
+  - contradiction.
+Qed.
